@@ -84,7 +84,7 @@ def scenario_from_schedule(i, sch, rnd, pool_override=None):
     for rank, t in enumerate(order):
         delays[str(t)] = round(0.04 * rank, 3)
     return {"id": "sched-%d" % i, "names": names, "behaviors": behs, "pool": pool_override or sch["W"], "delays": delays,
-            "schedule": sch}
+            "schedule": sch, "failat": list(sch["failat"])}
 
 
 def run(ctx):
